@@ -20,9 +20,11 @@ for s in seeds:
     try:
         for p in props:
             t0=time.time()
-            c=sh("cd %s && ./check %s --tier quick" % (ROOT,p))
+            c=sh("cd %s && MQV_NO_SHRINK=1 ./check %s --tier quick --scale 0.5" % (ROOT,p))
             kinds=sorted(set(re.findall(r"^  ([A-Za-z]+):", c.stdout, re.M)))
             row[p]={"exit":c.returncode,"kinds":kinds,"s":round(time.time()-t0,1)}
+            if c.returncode==2:
+                row[p]["tail"]=c.stdout[-600:]
     finally:
         sh("git -C /repo reset -q; git -C /repo checkout -- .")
         sh("cd %s && git clean -fdq replays/ && git checkout -q -- evidence/" % ROOT)
